@@ -514,7 +514,7 @@ code (`joinOnDrop = false`; any creators, schedules of creators and blocking poo
 cancellations at all three await points) in which no write is in flight at the moments a callback is dropped
 or returns an error (`FCA.ReachableQD`), the real bytes at the final path are absent or the complete payload of
 the one creator that renamed, and equal the protocol model's. So the ONLY way the real callbacks can violate
-atomicity is the one of `C16_cancel_with_write_in_flight_breaks_atomicity`: a write still queued when the
+atomicity is the one of `C16_legacy_counterexample_cancel_inflight_write`: a write still queued when the
 `tokio::fs::File` is dropped inside the callback. -/
 theorem C16_async_as_is_atomic_unless_write_in_flight_at_drop (pl : Pid → Content) (s : FCA.State)
     (h : FCA.ReachableQD pl s) :
